@@ -57,10 +57,12 @@ Definition subclass (c d : exc) : bool := sub_fuel 4 c d.
 
 (** [except <tuple of classes>] *)
 Definition caught (c : exc) (l : list exc) : bool := existsb (subclass c) l.
+Arguments subclass : simpl never.
+Arguments caught : simpl never.
 
 (** ** Parameters: opaque user objects, and the objects the constructors derive. *)
 Inductive refunc := Fullmatch | Search | Match.
-Inductive cmpop := Lt | Le | Ge | Gt.
+Inductive cmpop := OLt | OLe | OGe | OGt.
 
 Inductive param :=
 | P (i : nat)                    (* a user-supplied object *)
@@ -72,7 +74,7 @@ Inductive param :=
 Definition refunc_eqb (a b : refunc) : bool :=
   match a, b with Fullmatch, Fullmatch | Search, Search | Match, Match => true | _, _ => false end.
 Definition cmpop_eqb (a b : cmpop) : bool :=
-  match a, b with Lt, Lt | Le, Le | Ge, Ge | Gt, Gt => true | _, _ => false end.
+  match a, b with OLt, OLt | OLe, OLe | OGe, OGe | OGt, OGt => true | _, _ => false end.
 
 Fixpoint param_eqb (a b : param) : bool :=
   match a, b with
@@ -148,6 +150,28 @@ Definition absorb_typeerror (t : tri) : tri :=
 Definition fin_res (x : value) : result :=
   match fin x with None => Ok | Some c => Raise c end.
 
+(** [for a in l: f(a)]: the first exception leaves the loop; [tail] is what happens after
+    the last member. *)
+Definition loop_all {A : Type} (f : A -> result) (tail : result) : list A -> result :=
+  fix loop (l : list A) : result :=
+    match l with
+    | [] => tail
+    | a :: r => match f a with Raise c => Raise c | Ok => loop r end
+    end.
+
+(** [for v in validators: try: v(..) / except Exception: continue / else: return]
+    followed by [raise ValueError]. *)
+Definition loop_any {A : Type} (f : A -> result) : list A -> result :=
+  fix loop (l : list A) : result :=
+    match l with
+    | [] => Raise EValueError
+    | a :: r =>
+        match f a with
+        | Ok => Ok
+        | Raise c => if subclass c EException then loop r else Raise c
+        end
+    end.
+
 Section Run.
   Variable test : atom -> nat -> tri.
   Variable len : nat -> lenres.
@@ -164,42 +188,36 @@ Section Run.
     | LN l => if (l <? n)%Z then Raise EValueError else Ok      (* if len(value) < self.min_length *)
     end.
 
-  (** ** [__call__] of every class, loops and [try]/[except] filters as written. *)
+  (** ** [__call__] of every class, loops and [try]/[except] filters as written.
+
+      [loop_all f tail l]: [for a in l: f(a)] leaving at the first exception, then [tail];
+      [loop_any f l]: the loop of [_OrValidator.__call__]. *)
   Fixpoint run (v : validator) (x : value) {struct v} : result :=
     match v with
     | VInst t => of_tri (test (AInst t) (vid x)) ETypeError
     | VRe p f => of_tri (test (ARe f p) (vid x)) EValueError
-    | VOpt w => if isnone x then Ok else run w x
+    | VOpt w => if isnone x then Ok else run w x                 (* if value is None: return *)
     | VIn opts _ => of_tri (absorb_typeerror (test (AIn opts) (vid x))) EValueError
     | VCallable => of_tri (test ACallable (vid x)) ENotCallable
     | VDeepIt m it =>
         match (match it with None => Ok | Some w => run w x end) with
         | Raise c => Raise c
-        | Ok =>
-            (fix loop (its : list (value * gres value)) : result :=
-               match its with
-               | [] => fin_res x
-               | (k, _) :: rest =>
-                   match run m k with Raise c => Raise c | Ok => loop rest end
-               end) (items x)
+        | Ok =>                                                   (* for member in value: *)
+            loop_all (fun kg : value * gres value => run m (fst kg)) (fin_res x) (items x)
         end
     | VDeepMap kv vv mv =>
         match (match mv with None => Ok | Some w => run w x end) with
         | Raise c => Raise c
-        | Ok =>
-            (fix loop (its : list (value * gres value)) : result :=
-               match its with
-               | [] => fin_res x
-               | (k, g) :: rest =>
-                   match run kv k with
-                   | Raise c => Raise c
-                   | Ok =>
-                       match g with
-                       | GE c => Raise c                       (* value[key] raised *)
-                       | GV y => match run vv y with Raise c => Raise c | Ok => loop rest end
-                       end
-                   end
-               end) (items x)
+        | Ok =>                                                   (* for key in value: *)
+            loop_all (fun kg : value * gres value =>
+                        match run kv (fst kg) with
+                        | Raise c => Raise c
+                        | Ok =>
+                            match snd kg with
+                            | GE c => Raise c                     (* value[key] raised *)
+                            | GV y => run vv y
+                            end
+                        end) (fin_res x) (items x)
         end
     | VNum b o => of_tri (test (ACmp o b) (vid x)) EValueError
     | VMaxLen n => max_len_res n x
@@ -209,22 +227,8 @@ Section Run.
         | Ok => Raise EValueError                                (* else: raise ValueError *)
         | Raise c => if caught c excs then Ok else Raise c       (* except self.exc_types: pass *)
         end
-    | VOr vs =>
-        (fix loop (ws : list validator) : result :=
-           match ws with
-           | [] => Raise EValueError
-           | w :: rest =>
-               match run w x with
-               | Ok => Ok                                                   (* else: return *)
-               | Raise c => if subclass c EException then loop rest else Raise c  (* except Exception: continue *)
-               end
-           end) vs
-    | VAnd _ vs =>
-        (fix loop (ws : list validator) : result :=
-           match ws with
-           | [] => Ok
-           | w :: rest => match run w x with Raise c => Raise c | Ok => loop rest end
-           end) vs
+    | VOr vs => loop_any (fun w => run w x) vs
+    | VAnd _ vs => loop_all (fun w => run w x) Ok vs
     end.
 
   (** ** The documented predicate, compositionally: the meaning of a composite is a
@@ -330,14 +334,31 @@ Fixpoint build (e : sexpr) : validator :=
   end.
 
 (** ** Equality and hashing of validator objects (the classes' own attrs
-    configuration: every class compares all its fields; every class hashes all of
-    them except [_InValidator._original_options] (hash=False)). *)
+    configuration: every class compares all its fields with [==]; every class hashes all
+    of them except [_InValidator._original_options] (hash=False)). *)
+
+(** Element-wise comparison of two sequences of the same kind. *)
+Definition list_same {A : Type} (f : A -> A -> bool) : list A -> list A -> bool :=
+  fix go (l l' : list A) : bool :=
+    match l, l' with
+    | [], [] => true
+    | a :: r, a' :: r' => f a a' && go r r'
+    | _, _ => false
+    end.
+
+Definition opt_same {A : Type} (f : A -> A -> bool) (a b : option A) : bool :=
+  match a, b with None, None => true | Some x, Some y => f x y | _, _ => false end.
+
+Definition opt_all {A : Type} (f : A -> bool) (a : option A) : bool :=
+  match a with None => true | Some x => f x end.
+
 Section EqHash.
-  Variable peq : param -> param -> bool.       (* a is b or a == b *)
+  Variable peq : param -> param -> bool.       (* a == b *)
   Variable hashable : param -> bool.           (* hash(a) does not raise *)
   Variable ph : param -> Z.                    (* hash(a) *)
   Variable mix : nat -> list Z -> Z.           (* hash of a tuple; first argument tells the class / tuple kind *)
 
+  (** The generated [__eq__]: same class, then field by field. *)
   Fixpoint veqb (a b : validator) {struct a} : bool :=
     match a, b with
     | VInst t, VInst u => peq t u
@@ -345,62 +366,37 @@ Section EqHash.
     | VOpt v, VOpt w => veqb v w
     | VIn o r, VIn o' r' => peq o o' && peq r r'
     | VCallable, VCallable => true
-    | VDeepIt m i, VDeepIt m' i' =>
-        veqb m m' &&
-        match i, i' with None, None => true | Some w, Some w' => veqb w w' | _, _ => false end
+    | VDeepIt m i, VDeepIt m' i' => veqb m m' && opt_same (fun v w => veqb v w) i i'
     | VDeepMap k v m, VDeepMap k' v' m' =>
-        veqb k k' && veqb v v' &&
-        match m, m' with None, None => true | Some w, Some w' => veqb w w' | _, _ => false end
-    | VNum b o, VNum b' o' => peq b b' && cmpop_eqb o o'
+        veqb k k' && veqb v v' && opt_same (fun v w => veqb v w) m m'
+    | VNum b o, VNum b' o' => peq b b' && cmpop_eqb o o'    (* compare_op / compare_func follow from o *)
     | VMaxLen n, VMaxLen n' | VMinLen n, VMinLen n' => Z.eqb n n'
-    | VNot v m e, VNot v' m' e' =>
-        veqb v v' && peq m m' &&
-        (fix go (l l' : list exc) : bool :=
-           match l, l' with
-           | [], [] => true
-           | c :: r, c' :: r' => exc_eqb c c' && go r r'
-           | _, _ => false
-           end) e e'
-    | VOr vs, VOr ws =>
-        (fix go (l l' : list validator) : bool :=
-           match l, l' with
-           | [], [] => true
-           | v :: r, w :: r' => veqb v w && go r r'
-           | _, _ => false
-           end) vs ws
+    | VNot v m e, VNot v' m' e' => veqb v v' && peq m m' && list_same exc_eqb e e'
+    | VOr vs, VOr ws => list_same (fun v w => veqb v w) vs ws
     | VAnd l vs, VAnd l' ws =>
-        Bool.eqb l l' &&                              (* a list never equals a tuple *)
-        (fix go (l l' : list validator) : bool :=
-           match l, l' with
-           | [], [] => true
-           | v :: r, w :: r' => veqb v w && go r r'
-           | _, _ => false
-           end) vs ws
+        Bool.eqb l l' && list_same (fun v w => veqb v w) vs ws   (* a list never equals a tuple *)
     | _, _ => false
     end.
 
+  (** The generated [__hash__] raises iff a hashed field is unhashable. *)
   Fixpoint vhashable (v : validator) : bool :=
     match v with
     | VInst t => hashable t
     | VRe p f => hashable p && hashable (PM f p)
     | VOpt w => vhashable w
-    | VIn o _ => hashable o
+    | VIn o _ => hashable o                                  (* _original_options: hash=False *)
     | VCallable => true
-    | VDeepIt m i => vhashable m && match i with None => true | Some w => vhashable w end
-    | VDeepMap k w m =>
-        vhashable k && vhashable w && match m with None => true | Some u => vhashable u end
+    | VDeepIt m i => vhashable m && opt_all (fun w => vhashable w) i
+    | VDeepMap k w m => vhashable k && vhashable w && opt_all (fun u => vhashable u) m
     | VNum b _ => hashable b
     | VMaxLen _ | VMinLen _ => true
     | VNot w m _ => vhashable w && hashable m
-    | VOr vs => (fix go (l : list validator) : bool :=
-                   match l with [] => true | w :: r => vhashable w && go r end) vs
-    | VAnd l vs => negb l &&
-                   (fix go (l : list validator) : bool :=
-                      match l with [] => true | w :: r => vhashable w && go r end) vs
+    | VOr vs => forallb (fun w => vhashable w) vs
+    | VAnd l vs => negb l && forallb (fun w => vhashable w) vs   (* a list is unhashable *)
     end.
 
   Definition hopt (o : option Z) : Z := match o with None => mix 99 [] | Some h => h end.
-  Definition hcmp (o : cmpop) : Z := match o with Lt => 0 | Le => 1 | Ge => 2 | Gt => 3 end%Z.
+  Definition hcmp (o : cmpop) : Z := match o with OLt => 0 | OLe => 1 | OGe => 2 | OGt => 3 end%Z.
   Definition hexc (c : exc) : Z :=
     match c with
     | EBaseException => 0 | EKeyboardInterrupt => 1 | EException => 2 | ETypeError => 3
@@ -408,7 +404,7 @@ Section EqHash.
     | EIndexError => 8 | ERuntimeError => 9 | EAttributeError => 10 | EUnknown => 11
     end%Z.
 
-  (** [hash((class salt, field, …))]; meaningful when [vhashable]. *)
+  (** [hash((class salt, field, ...))]; meaningful when [vhashable]. *)
   Fixpoint vhash (v : validator) : Z :=
     match v with
     | VInst t => mix 0 [ph t]
@@ -416,72 +412,61 @@ Section EqHash.
     | VOpt w => mix 2 [vhash w]
     | VIn o _ => mix 3 [ph o]
     | VCallable => mix 4 []
-    | VDeepIt m i => mix 5 [vhash m; hopt (option_map vhash i)]
-    | VDeepMap k w m => mix 6 [vhash k; vhash w; hopt (option_map vhash m)]
+    | VDeepIt m i => mix 5 [vhash m; hopt (option_map (fun w => vhash w) i)]
+    | VDeepMap k w m => mix 6 [vhash k; vhash w; hopt (option_map (fun u => vhash u) m)]
     | VNum b o => mix 7 [ph b; hcmp o]
     | VMaxLen n => mix 8 [n]
     | VMinLen n => mix 9 [n]
     | VNot w m e => mix 10 [vhash w; ph m; mix 98 (map hexc e)]
-    | VOr vs => mix 11 [mix 98 (map vhash vs)]
-    | VAnd _ vs => mix 12 [mix 98 (map vhash vs)]
+    | VOr vs => mix 11 [mix 98 (map (fun w => vhash w) vs)]
+    | VAnd _ vs => mix 12 [mix 98 (map (fun w => vhash w) vs)]
     end.
 
-  (** "Built from equal parameters": the same call shape with pairwise equal
-      arguments. *)
-  Definition opt_same {A} (f : A -> A -> bool) (a b : option A) : bool :=
-    match a, b with None, None => true | Some x, Some y => f x y | _, _ => false end.
-
-  Definition excs_same : list exc -> list exc -> bool :=
-    fix go (l l' : list exc) : bool :=
-      match l, l' with
-      | [], [] => true
-      | c :: r, c' :: r' => exc_eqb c c' && go r r'
-      | _, _ => false
-      end.
-
+  (** "Built from equal parameters": the same call shape with pairwise equal arguments. *)
   Fixpoint same_params (a b : sexpr) {struct a} : bool :=
     match a, b with
     | SInst t, SInst u => peq t u
     | SRe r c f, SRe r' c' f' =>
         peq r r' && Bool.eqb c c' && refunc_eqb (func_or_default f) (func_or_default f')
     | SOpt e, SOpt e' => same_params e e'
-    | SOptL l es, SOptL l' es' =>
-        Bool.eqb l l' &&
-        (fix go (x y : list sexpr) : bool :=
-           match x, y with
-           | [], [] => true
-           | e :: r, e' :: r' => same_params e e' && go r r'
-           | _, _ => false
-           end) es es'
+    | SOptL l es, SOptL l' es' => Bool.eqb l l' && list_same (fun e e' => same_params e e') es es'
     | SIn p c, SIn p' c' => peq p p' && Bool.eqb c c'
     | SCallable, SCallable => true
     | SDeepIt m i, SDeepIt m' i' =>
-        same_params m m' &&
-        match i, i' with None, None => true | Some w, Some w' => same_params w w' | _, _ => false end
+        same_params m m' && opt_same (fun e e' => same_params e e') i i'
     | SDeepItL l ms i, SDeepItL l' ms' i' =>
-        Bool.eqb l l' &&
-        (fix go (x y : list sexpr) : bool :=
-           match x, y with
-           | [], [] => true
-           | e :: r, e' :: r' => same_params e e' && go r r'
-           | _, _ => false
-           end) ms ms' &&
-        match i, i' with None, None => true | Some w, Some w' => same_params w w' | _, _ => false end
+        Bool.eqb l l' && list_same (fun e e' => same_params e e') ms ms'
+        && opt_same (fun e e' => same_params e e') i i'
     | SDeepMap k v m, SDeepMap k' v' m' =>
-        same_params k k' && same_params v v' &&
-        match m, m' with None, None => true | Some w, Some w' => same_params w w' | _, _ => false end
+        same_params k k' && same_params v v' && opt_same (fun e e' => same_params e e') m m'
     | SNum o b, SNum o' b' => cmpop_eqb o o' && peq b b'
     | SMaxLen n, SMaxLen n' | SMinLen n, SMinLen n' => Z.eqb n n'
     | SNot e m s x, SNot e' m' s' x' =>
-        same_params e e' && peq (msg_param m) (msg_param m') && Bool.eqb s s' && excs_same x x'
-    | SOr es, SOr es' | SAnd es, SAnd es' =>
-        (fix go (x y : list sexpr) : bool :=
-           match x, y with
-           | [], [] => true
-           | e :: r, e' :: r' => same_params e e' && go r r'
-           | _, _ => false
-           end) es es'
+        same_params e e' && peq (msg_param m) (msg_param m') && Bool.eqb s s' && list_same exc_eqb x x'
+    | SOr es, SOr es' | SAnd es, SAnd es' => list_same (fun e e' => same_params e e') es es'
     | _, _ => false
+    end.
+
+  (** The objects the constructors derive from equal arguments are equal again:
+      [tuple(options)] of a list / dict / set, the compiled pattern and its bound method. *)
+  Fixpoint derived_same (a b : sexpr) {struct a} : bool :=
+    match a, b with
+    | SRe r c f, SRe r' c' f' =>
+        let p := if c then r else PC r in
+        let p' := if c' then r' else PC r' in
+        peq p p' && peq (PM (func_or_default f) p) (PM (func_or_default f') p')
+    | SIn p c, SIn p' c' => if c then peq (PT p) (PT p') else true
+    | SOpt e, SOpt e' | SNot e _ _ _, SNot e' _ _ _ => derived_same e e'
+    | SOptL _ es, SOptL _ es' | SOr es, SOr es' | SAnd es, SAnd es' =>
+        list_same (fun e e' => derived_same e e') es es'
+    | SDeepIt m i, SDeepIt m' i' =>
+        derived_same m m' && opt_same (fun e e' => derived_same e e') i i'
+    | SDeepItL _ ms i, SDeepItL _ ms' i' =>
+        list_same (fun e e' => derived_same e e') ms ms'
+        && opt_same (fun e e' => derived_same e e') i i'
+    | SDeepMap k v m, SDeepMap k' v' m' =>
+        derived_same k k' && derived_same v v' && opt_same (fun e e' => derived_same e e') m m'
+    | _, _ => true
     end.
 
   (** Every argument of every call is hashable (a list argument never is). *)
@@ -490,23 +475,17 @@ Section EqHash.
     | SInst t => hashable t
     | SRe r _ _ => hashable r
     | SOpt e => params_hashable e
-    | SOptL l es => negb l && (fix go (x : list sexpr) : bool :=
-                                 match x with [] => true | e :: r => params_hashable e && go r end) es
+    | SOptL l es => negb l && forallb (fun e => params_hashable e) es
     | SIn p c => hashable p && negb c
     | SCallable => true
-    | SDeepIt m i => params_hashable m && match i with None => true | Some w => params_hashable w end
+    | SDeepIt m i => params_hashable m && opt_all (fun e => params_hashable e) i
     | SDeepItL l ms i =>
-        negb l && (fix go (x : list sexpr) : bool :=
-                     match x with [] => true | e :: r => params_hashable e && go r end) ms
-        && match i with None => true | Some w => params_hashable w end
+        negb l && forallb (fun e => params_hashable e) ms && opt_all (fun e => params_hashable e) i
     | SDeepMap k v m =>
-        params_hashable k && params_hashable v &&
-        match m with None => true | Some w => params_hashable w end
+        params_hashable k && params_hashable v && opt_all (fun e => params_hashable e) m
     | SNum _ b => hashable b
     | SMaxLen _ | SMinLen _ => true
     | SNot e m _ _ => params_hashable e && hashable (msg_param m)
-    | SOr es | SAnd es =>
-        (fix go (x : list sexpr) : bool :=
-           match x with [] => true | e :: r => params_hashable e && go r end) es
+    | SOr es | SAnd es => forallb (fun e => params_hashable e) es
     end.
 End EqHash.
